@@ -83,6 +83,9 @@ func (n *Node) Apply(b *BatchSpec) {
 			delete(n.KV, o.Key)
 		case 'M':
 			if o.Val == keepOperand {
+				if _, ok := n.KV[o.Key]; !ok {
+					n.KV[o.Key] = "^"
+				}
 				break
 			}
 			if v, ok := n.KV[o.Key]; ok {
@@ -125,6 +128,9 @@ func (appendMergeOperator) FullMerge(key, existing []byte, operands [][]byte) ([
 		changed = true
 	}
 	if !changed {
+		if existing == nil {
+			return []byte("^"), true // nothing to keep: the operator never returns nil
+		}
 		return existing, true // the very slice it was given (like a "max" operator returning its input)
 	}
 	return []byte(*cur), true
